@@ -5,6 +5,7 @@ package main
 
 import (
 	"fmt"
+	"os"
 	"strings"
 )
 
@@ -17,8 +18,132 @@ type Term struct {
 	Hi   int // for extract / extend amount
 	Lo   int
 	id   int
+	// unsigned value bounds (bit-vectors only), computed at construction
+	Umin, Umax uint64
+	ranged     bool
 }
 
+// rng returns conservative unsigned bounds of a bit-vector term.
+func (t *Term) rng() (uint64, uint64) {
+	if t.W == 0 {
+		return 0, 1
+	}
+	if t.Op == "const" {
+		return t.Val, t.Val
+	}
+	if t.ranged {
+		return t.Umin, t.Umax
+	}
+	return 0, mask(t.W)
+}
+
+func (t *Term) setRange() {
+	if t.W == 0 {
+		return
+	}
+	m := mask(t.W)
+	lo, hi := uint64(0), m
+	a := t.Args
+	switch t.Op {
+	case "ite":
+		l1, h1 := a[1].rng()
+		l2, h2 := a[2].rng()
+		lo, hi = l1, h1
+		if l2 < lo {
+			lo = l2
+		}
+		if h2 > hi {
+			hi = h2
+		}
+	case "bvand":
+		_, h1 := a[0].rng()
+		_, h2 := a[1].rng()
+		hi = h1
+		if h2 < hi {
+			hi = h2
+		}
+	case "bvor", "bvxor":
+		l1, h1 := a[0].rng()
+		l2, h2 := a[1].rng()
+		mx := h1
+		if h2 > mx {
+			mx = h2
+		}
+		// smallest 2^k-1 >= mx
+		p := uint64(0)
+		for p < mx {
+			p = p<<1 | 1
+		}
+		hi = p & m
+		if t.Op == "bvor" {
+			lo = l1
+			if l2 > lo {
+				lo = l2
+			}
+		}
+	case "bvadd":
+		l1, h1 := a[0].rng()
+		l2, h2 := a[1].rng()
+		if h1+h2 >= h1 && h1+h2 <= m {
+			lo, hi = l1+l2, h1+h2
+		}
+	case "bvsub":
+		l1, h1 := a[0].rng()
+		l2, h2 := a[1].rng()
+		if l1 >= h2 {
+			lo, hi = l1-h2, h1-l2
+		}
+	case "bvmul":
+		l1, h1 := a[0].rng()
+		l2, h2 := a[1].rng()
+		if h1 == 0 || h2 == 0 || (h1*h2)/h2 == h1 && h1*h2 <= m {
+			lo, hi = l1*l2, h1*h2
+		}
+	case "bvudiv":
+		l1, h1 := a[0].rng()
+		l2, h2 := a[1].rng()
+		if l2 > 0 {
+			lo, hi = l1/h2, h1/l2
+		}
+	case "bvurem":
+		_, h1 := a[0].rng()
+		l2, h2 := a[1].rng()
+		if l2 > 0 {
+			hi = h2 - 1
+			if h1 < hi {
+				hi = h1
+			}
+		}
+	case "bvlshr":
+		l1, h1 := a[0].rng()
+		if a[1].IsConst() && a[1].Val < uint64(t.W) {
+			lo, hi = l1>>a[1].Val, h1>>a[1].Val
+		} else {
+			hi = h1
+		}
+	case "bvshl":
+		l1, h1 := a[0].rng()
+		if a[1].IsConst() && a[1].Val < uint64(t.W) {
+			k := a[1].Val
+			if (h1<<k)>>k == h1 && h1<<k <= m {
+				lo, hi = l1<<k, h1<<k
+			}
+		}
+	case "zero_extend":
+		lo, hi = a[0].rng()
+	case "extract":
+		l1, h1 := a[0].rng()
+		if t.Lo == 0 && h1 <= m {
+			lo, hi = l1, h1
+		}
+	}
+	if lo != 0 || hi != m {
+		t.Umin, t.Umax, t.ranged = lo, hi, true
+	}
+}
+
+
+var noRange = os.Getenv("SYMGO_NORANGE") != ""
 
 func mask(w int) uint64 {
 	if w >= 64 {
@@ -28,7 +153,11 @@ func mask(w int) uint64 {
 }
 
 func mk(op string, w int, args ...*Term) *Term {
-	return &Term{Op: op, W: w, Args: args}
+	t := &Term{Op: op, W: w, Args: args}
+	if op != "extract" && op != "zero_extend" && op != "sign_extend" {
+		t.setRange()
+	}
+	return t
 }
 
 func Const(w int, v uint64) *Term {
@@ -268,6 +397,58 @@ func Cmp(op string, a, b *Term) *Term {
 	if op == "=" && sameTerm(a, b) {
 		return TrueT
 	}
+	if a.W > 0 && !noRange {
+		al, ah := a.rng()
+		bl, bh := b.rng()
+		half := uint64(1) << uint(a.W-1)
+		uop := op
+		if ah < half && bh < half {
+			switch op {
+			case "bvslt":
+				uop = "bvult"
+			case "bvsle":
+				uop = "bvule"
+			case "bvsgt":
+				uop = "bvugt"
+			case "bvsge":
+				uop = "bvuge"
+			}
+		}
+		switch uop {
+		case "=":
+			if ah < bl || bh < al {
+				return FalseT
+			}
+		case "bvult":
+			if ah < bl {
+				return TrueT
+			}
+			if al >= bh {
+				return FalseT
+			}
+		case "bvule":
+			if ah <= bl {
+				return TrueT
+			}
+			if al > bh {
+				return FalseT
+			}
+		case "bvugt":
+			if al > bh {
+				return TrueT
+			}
+			if ah <= bl {
+				return FalseT
+			}
+		case "bvuge":
+			if al >= bh {
+				return TrueT
+			}
+			if ah < bl {
+				return FalseT
+			}
+		}
+	}
 	if a.W == 0 && op == "=" {
 		// boolean equality
 		if a.IsConst() {
@@ -401,6 +582,7 @@ func Extract(a *Term, hi, lo int) *Term {
 	}
 	t := mk("extract", w, a)
 	t.Hi, t.Lo = hi, lo
+	t.setRange()
 	return t
 }
 
@@ -416,6 +598,7 @@ func ZeroExt(a *Term, to int) *Term {
 	}
 	t := mk("zero_extend", to, a)
 	t.Hi = to - a.W
+	t.setRange()
 	return t
 }
 
